@@ -39,9 +39,9 @@ pub const EXHAUSTIVE: [&str; 16] = [
 
 fn jobs(plan: &Plan) -> Vec<Job> {
     let t = plan.tier;
-    let mut v = entry_jobs(plan, "C08", "clear", t.pick(12, 500, 1), |_| true);
+    let mut v = entry_jobs(plan, "C08", "clear", t.pick(48, 500, 1), |_| true);
     v.extend(entry_jobs(plan, "C08", "exhaustive", 1, |d| EXHAUSTIVE.contains(&d.label)));
-    v.extend(stack_jobs(plan, "C08", "stack-clear", t.pick(4, 120, 0), |_| true));
+    v.extend(stack_jobs(plan, "C08", "stack-clear", t.pick(12, 120, 0), |_| true));
     v
 }
 
